@@ -30,9 +30,7 @@ def main():
                 continue
             r = tlc.run('RangeImpl', shapes.cfg(nk, 1, lf, it, spec='SpecCore', invariants=invs, firstkey=2), timeout=3400)
             ck.add_tlc(r.summary(), 'RangeImpl %s keys=%d sizes=(%d,%d)' % ('+'.join(invs), nk, lf, it))
-            if not r.ok:
-                ck.violation('TLC: %s violated on the specification (keys=%d sizes=%d/%d): %s' % (
-                    r.violation or r.error, nk, lf, it, r.out[-1500:]), dict(kind='tlc', inst=[nk, lf, it]))
+            common.tlc_verdict(ck, r, ck.notes['tlc_runs'][-1]['name'])
     # non-vacuity: each named deviation (the behaviour before the corresponding fix) must be refuted
     for inv, dev in DEVS:
         r = tlc.run('RangeImpl', shapes.cfg(5, 1, 2, 2, spec='SpecCore', invariants=(inv,), dev=(dev,), firstkey=2),
